@@ -9,6 +9,12 @@ CHECKS = {
     "C01": (MC, "4.C01", "explicit-state trace conformance: every process run of a finite configuration lattice is replayed transition by transition against a reference stepper; raising runs must be justified by the stepper + real solver; ideal runs are restarted from their own non-initial states",
             "Every transition of every trace in the stated lattice satisfies the two mass balances to 1e-12 relative; shape, initial state and time grid per trace. Covers what tests cannot: all 4 kinds x modes x mixtures x models x bases x programmes, not a handful of pinned numbers.",
             "flux solver taken as given (C02/C10); find_best_fit memoised (deep copies); lattice, not continuum"),
+    "C03": (MC, "4.C03", "explicit-state trace conformance: evaporation heat of every step and temperature update of every transition replayed against a reference stepper (own latent heat per component, self-cooling, programme, isothermal); iso/non-iso sibling models compared at step 0",
+            "Every step and transition of every trace in the lattice satisfies the heat balance to 1e-12 relative; condensation heat present iff a permeate temperature is given; sibling models agree at step 0 (bit-identical fluxes for the ideal family).",
+            "Component latent/specific heats taken as given (C13); value of the condensation heat not judged (no formula in the statement)"),
+    "C18": (MC, "4.C18", "explicit-state invariant checking: admissibility invariant evaluated on every reported state of every trace of a lattice that includes coarse discretisations (first step removes 10%..1000% of the feed) and programmes crossing 0 K",
+            "No returned trajectory in the explored lattice contains a state with non-positive mass, fractions outside [0,1], non-positive or non-finite temperature, or non-finite fluxes/heats; raising is accepted.",
+            "a raising call is always acceptable for this property; lattice, not continuum"),
 }
 def main():
     checks = []
